@@ -330,7 +330,7 @@ def step (d : DState) (tok : List String) : DState × List String :=
         match d.vars.find? (fun e => e.1 == src) with
         | some e => ({ d with vars := (d.vars.filter (fun x => x.1 != dst)) ++ [(dst, e.2)] }, ["vptr ok"])
         | none => (d, ["!harness bad virtual_ptr variable"])
-      | "budget", _ => (d.set { s with budget := nats.headD 100000 }, [])
+      | "budget", _ => (d.set { s with budget := nats.headD Generated.hashBudget }, [])
       | "handler", a :: _ => ({ d with handlerReturns := a == "return" }, [])
       | "class", _ =>
         match nats with
